@@ -2,25 +2,21 @@
 pub open spec fn p256(e: nat) -> nat decreases e { if e == 0 { 1 } else { 256 * p256((e - 1) as nat) } }
 pub open spec fn p10(e: nat) -> nat decreases e { if e == 0 { 1 } else { 10 * p10((e - 1) as nat) } }
 
-/// big-endian value of a byte sequence
+/// big-endian value of a byte sequence:  b[0] * 256^(n-1) + value(b[1..])
 pub open spec fn be_val(b: Seq<u8>) -> nat decreases b.len() {
-    if b.len() == 0 { 0 } else { be_val(b.drop_last()) * 256 + b.last() as nat }
+    if b.len() == 0 { 0 } else { b[0] as nat * p256((b.len() - 1) as nat) + be_val(b.skip(1)) }
 }
 
-pub proof fn lemma_be_push(b: Seq<u8>, x: u8)
-    ensures be_val(b.push(x)) == be_val(b) * 256 + x as nat
-{
-    assert(b.push(x).drop_last() =~= b);
-}
+pub proof fn lemma_p256_pos(e: nat) ensures p256(e) >= 1 decreases e { if e > 0 { lemma_p256_pos((e - 1) as nat); } }
 
 pub proof fn lemma_be_bound(b: Seq<u8>)
     ensures be_val(b) < p256(b.len())
     decreases b.len()
 {
     if b.len() > 0 {
-        lemma_be_bound(b.drop_last());
-        let x = be_val(b.drop_last()); let p = p256((b.len() - 1) as nat); let l = b.last() as nat;
-        assert(x * 256 + l < 256 * p) by (nonlinear_arith) requires x < p, l < 256;
+        lemma_be_bound(b.skip(1));
+        let x = be_val(b.skip(1)); let p = p256((b.len() - 1) as nat); let l = b[0] as nat;
+        assert(l * p + x < 256 * p) by (nonlinear_arith) requires x < p, l < 256;
     }
 }
 
@@ -29,46 +25,65 @@ pub proof fn lemma_be_zeros(b: Seq<u8>)
     ensures be_val(b) == 0
     decreases b.len()
 {
-    if b.len() > 0 { lemma_be_zeros(b.drop_last()); }
+    if b.len() > 0 {
+        lemma_be_zeros(b.skip(1));
+        assert(b[0] as nat * p256((b.len() - 1) as nat) == 0) by (nonlinear_arith) requires b[0] == 0;
+    }
+}
+
+/// appending a least-significant byte
+pub proof fn lemma_be_push(b: Seq<u8>, x: u8)
+    ensures be_val(b.push(x)) == be_val(b) * 256 + x as nat
+    decreases b.len()
+{
+    let c = b.push(x);
+    if b.len() == 0 {
+        assert(c.skip(1) =~= Seq::<u8>::empty());
+        assert(c.len() == 1);
+        assert(p256(0) == 1);
+        assert(be_val(c.skip(1)) == 0);
+        assert(be_val(c) == c[0] as nat * p256(0) + be_val(c.skip(1)));
+        assert(c[0] as nat * p256(0) == x as nat) by (nonlinear_arith) requires c[0] == x, p256(0) == 1;
+        assert(be_val(b) == 0);
+    } else {
+        lemma_be_push(b.skip(1), x);
+        assert(c.skip(1) =~= b.skip(1).push(x));
+        assert(c[0] == b[0]);
+        assert(c.len() == b.len() + 1);
+        let p = p256((b.len() - 1) as nat); let h = b[0] as nat; let t = be_val(b.skip(1));
+        assert(p256(b.len()) == 256 * p);
+        assert(be_val(c) == h * p256(b.len()) + be_val(c.skip(1)));
+        assert(be_val(c.skip(1)) == t * 256 + x as nat);
+        assert(be_val(b) == h * p + t);
+        assert(h * (256 * p) + (t * 256 + x as nat) == (h * p + t) * 256 + x as nat) by (nonlinear_arith);
+    }
 }
 
 /// value of the suffix b[k..]
-pub open spec fn suf(b: Seq<u8>, k: int) -> nat { be_val(b.subrange(k, b.len() as int)) }
+pub open spec fn suf(b: Seq<u8>, k: int) -> nat { be_val(b.skip(k)) }
 
 pub proof fn lemma_suf_step(b: Seq<u8>, k: int)
     requires 0 <= k < b.len()
     ensures suf(b, k) == b[k] as nat * p256((b.len() - k - 1) as nat) + suf(b, k + 1)
-    decreases b.len() - k
 {
-    let s = b.subrange(k, b.len() as int);
-    if k == b.len() - 1 {
-        assert(s.drop_last() =~= Seq::<u8>::empty());
-        assert(b.subrange(k + 1, b.len() as int) =~= Seq::<u8>::empty());
-        assert(s.len() == 1);
-        assert(s.last() == b[k]);
-        assert(be_val(s) == be_val(s.drop_last()) * 256 + s.last() as nat);
-        assert(be_val(Seq::<u8>::empty()) == 0);
-        assert(p256(0) == 1);
-        assert(suf(b, k + 1) == 0);
-    } else {
-        let bl = b.drop_last();
-        assert(s.drop_last() =~= bl.subrange(k, bl.len() as int));
-        assert(b.subrange(k + 1, b.len() as int).drop_last() =~= bl.subrange(k + 1, bl.len() as int));
-        lemma_suf_step(bl, k);
-        assert(bl[k] == b[k]);
-        assert(s.last() == b.last());
-        assert(b.subrange(k + 1, b.len() as int).last() == b.last());
-        let e = (b.len() - k - 1) as nat;
-        assert(p256(e) == 256 * p256((e - 1) as nat));
-        assert(suf(bl, k) == b[k] as nat * p256((e - 1) as nat) + suf(bl, k + 1));
-        assert(suf(b, k) == suf(bl, k) * 256 + b.last() as nat);
-        assert(suf(b, k + 1) == suf(bl, k + 1) * 256 + b.last() as nat);
-        assert(suf(b, k) == b[k] as nat * p256(e) + suf(b, k + 1)) by (nonlinear_arith)
-            requires suf(b, k) == suf(bl, k) * 256 + b.last() as nat,
-                     suf(b, k + 1) == suf(bl, k + 1) * 256 + b.last() as nat,
-                     suf(bl, k) == b[k] as nat * p256((e - 1) as nat) + suf(bl, k + 1),
-                     p256(e) == 256 * p256((e - 1) as nat);
-    }
+    assert(b.skip(k).skip(1) =~= b.skip(k + 1));
+    assert(b.skip(k)[0] == b[k]);
+    assert(b.skip(k).len() == b.len() - k);
+}
+
+pub proof fn lemma_suf_ends(b: Seq<u8>)
+    ensures suf(b, b.len() as int) == 0, suf(b, 0) == be_val(b)
+{
+    assert(b.skip(b.len() as int) =~= Seq::<u8>::empty());
+    assert(b.skip(0) =~= b);
+}
+
+/// suffixes of sequences that agree from k on are equal
+pub proof fn lemma_suf_agree(a: Seq<u8>, b: Seq<u8>, k: int)
+    requires a.len() == b.len(), 0 <= k <= a.len(), forall|j: int| k <= j < a.len() ==> a[j] == b[j]
+    ensures suf(a, k) == suf(b, k)
+{
+    assert(a.skip(k) =~= b.skip(k));
 }
 
 // ---------------- decimal digit strings ----------------
